@@ -19,6 +19,39 @@ def run(rep, prog, tier):
     r4(rep, prog)
     r5(rep, prog)
     r6(rep, prog)
+    r7(rep, prog)
+
+
+def r7(rep, prog):
+    """every way of reading a stored document decodes it with the version the store was written with"""
+    R = "C09-R7"
+    rep.rule(R, "one version source for every read path: the doc store footer records the format version of its documents (V1 stores dates in microseconds, V2 in nanoseconds); StoreReader keeps it in `doc_store_version`. Every BinaryDocumentDeserializer::from_reader in store::reader — get (by address), iter (sequential), the async variants — takes its version argument from that field, never from a constant: a sibling that decodes with the crate's current version reads the dates of an older store 1000 times too small, and disagrees with the by-address path on the same document")
+    n = 0
+    for fid, b in sorted(prog.bodies.items()):
+        if not fid.lstrip("<").startswith("tantivy::store::reader::") or "::tests::" in fid or b.kind in ("const", "static", "promoted"):
+            continue
+        for bi, t in b.calls():
+            f = t.get("res") or t.get("f") or ""
+            if not f.endswith("BinaryDocumentDeserializer::<'de, R>::from_reader") and not f.endswith("BinaryDocumentDeserializer::from_reader") and "BinaryDocumentDeserializer" not in f:
+                continue
+            if not f.endswith("from_reader") or len(t.get("args", [])) < 2:
+                continue
+            n += 1
+            l = op_local(t["args"][1])
+            tr = trace_back(b, l) if l is not None else [("const", t["args"][1].get("v") if isinstance(t["args"][1], dict) else "?")]
+            ok = any(x[0] == "field" and x[2] == "doc_store_version" for x in tr)
+            if not ok and "{closure" in fid and tr and tr[-1] == ("param", 1):
+                # a value captured by the closure: follow it into the enclosing function
+                from ..rules import closure_capture
+                idx = next((x[1] for x in tr if x[0] == "field"), None)
+                cap = closure_capture(prog, fid, idx) if idx is not None else None
+                if cap is not None and op_local(cap[1]) is not None:
+                    tr2 = trace_back(cap[0], op_local(cap[1]))
+                    ok = any(x[0] == "field" and x[2] == "doc_store_version" for x in tr2)
+            rep.check(ok, R, "%s decodes with the store's own version" % short(fid), "version <- self.doc_store_version",
+                      "`%s` hands BinaryDocumentDeserializer::from_reader a version that is not the StoreReader's doc_store_version (%s): documents of a store written by an older release are decoded with the wrong "
+                      "layout on this read path only (stored dates of a V1 store come out 1000x too small through iter, while Searcher::doc returns them right)" % (fid, tr[:2]), site=site(b, bi))
+    rep.floor(R, "document deserialisation sites in store::reader", n, 2)
 
 
 def r6(rep, prog):
